@@ -1,7 +1,61 @@
 """Real-code side of the walker correspondence (C13 / C12) and the impl-level oracle for C13."""
-import copy, json, os, re
+import contextlib, copy, json, os, re, sys
 
 from . import common, walkspec
+
+# ------------------------------------------------------------------ recursion budgets (deep trees)
+# The walker needs one interpreter frame per tree level; the harness's own recursion (deepcopy, numbering, serialisation,
+# bracketed to_string) needs several.  The harness parts run under a raised limit, the library under the interpreter's
+# ordinary limit — so a walker that stops or fails below that limit is seen as it would be by a caller.
+BASE_LIMIT = sys.getrecursionlimit()
+HARNESS_LIMIT = 30000
+
+
+_preloaded = []
+
+
+def preload():
+    """import the library while the interpreter's ordinary recursion limit is in force (a module may read the limit when
+    it is imported)"""
+    if _preloaded:
+        return
+    _preloaded.append(1)
+    import importlib
+    for m in ('mindsdb_sql', 'mindsdb_sql.parser.ast', 'mindsdb_sql.planner', 'mindsdb_sql.planner.utils',
+              'mindsdb_sql.planner.query_planner', 'mindsdb_sql.planner.query_prepare', 'mindsdb_sql.render.sqlalchemy_render',
+              'mindsdb_sql.parser.dialects.mindsdb.parser', 'mindsdb_sql.parser.dialects.mysql.parser',
+              'mindsdb_sql.parser.dialects.sqlite.parser', 'mindsdb_sql.parser.dialects.mindsdb.lexer',
+              'mindsdb_sql.parser.dialects.mysql.lexer', 'mindsdb_sql.parser.dialects.sqlite.lexer'):
+        try:
+            importlib.import_module(m)
+        except Exception:
+            pass
+
+
+@contextlib.contextmanager
+def harness_recursion():
+    if sys.getrecursionlimit() <= BASE_LIMIT:
+        preload()
+    old = sys.getrecursionlimit()
+    sys.setrecursionlimit(max(old, HARNESS_LIMIT))
+    try:
+        yield
+    finally:
+        sys.setrecursionlimit(old)
+
+
+@contextlib.contextmanager
+def library_recursion():
+    old = sys.getrecursionlimit()
+    sys.setrecursionlimit(BASE_LIMIT)
+    try:
+        yield
+    finally:
+        sys.setrecursionlimit(old)
+
+
+class Abort(Exception):
+    """raised by a harness visitor in the middle of a walk (`raise` mode, history stream)"""
 
 R_TAG = 999999
 VAL0 = 1000000
@@ -94,15 +148,24 @@ class Case:
 
     def __init__(self, root, schema):
         self.schema = schema
-        self.root = copy.deepcopy(root)
-        self.num = walkspec.Numbering(self.root)
-        self.text, _, self.unknown = walkspec.rose(self.root, schema, self.num)
+        with harness_recursion():
+            self.root = copy.deepcopy(root)
+            self.num = walkspec.Numbering(self.root)
+            self.text, _, self.unknown = walkspec.rose(self.root, schema, self.num)
         self.usable = not self.unknown and not self.num.shared
 
     def fresh(self):
         """a new copy with the same numbering"""
-        r = copy.deepcopy(self.root)
-        return r, walkspec.Numbering(r)
+        with harness_recursion():
+            r = copy.deepcopy(self.root)
+            return r, walkspec.Numbering(r)
+
+    def depths(self):
+        """number -> nesting depth (root = 1)"""
+        d = {0: 1}
+        for k in range(1, len(self.num.nodes)):
+            d[k] = d[self.num.parent[k][0]] + 1
+        return d
 
 
 def real_walk(schema, root, num, mode, arg=None):
@@ -123,6 +186,23 @@ def real_walk(schema, root, num, mode, arg=None):
         def cb(node, **kw):
             rec(node, None, kw)
         res = utils.query_traversal(root, cb)
+    elif mode == 'raise':
+        # a visitor that looks and raises at one node: the calls made are those of the looking visitor up to that node,
+        # the exception reaches the caller, the tree is as it was
+        tgt = num.nodes[arg]
+
+        def cb(node, **kw):
+            rec(node, None, kw)
+            if node is tgt:
+                raise Abort()
+        try:
+            res = utils.query_traversal(root, cb)
+            raised = False
+        except Abort:
+            res, raised = None, True
+        with harness_recursion():
+            return dict(visits=visits, tree=rose_after(root, schema, tagof), r='!' if raised else ('-' if res is None else str(tagof(res))),
+                        extra='')
     elif mode in ('rep', 'rept', 'repf'):
         R = replacement({'rep': 'const', 'rept': 'tuple0', 'repf': 'falsy'}[mode])
         tgt = num.nodes[arg]
@@ -146,8 +226,9 @@ def real_walk(schema, root, num, mode, arg=None):
     elif mode == 'fill':
         vals = [VAL0 + i for i in range(arg)]
         # the library function on one copy ...
-        r2 = copy.deepcopy(root)
-        n2 = walkspec.Numbering(r2)
+        with harness_recursion():
+            r2 = copy.deepcopy(root)
+            n2 = walkspec.Numbering(r2)
         err = False
         try:
             utils.fill_query_params(r2, list(vals))
@@ -175,11 +256,14 @@ def real_walk(schema, root, num, mode, arg=None):
             extra = 'left=%d indexError=0' % (len(vals) - len(found))
         if failed != err:
             extra += ' MISMATCH(IndexError)'
-        if not err and rose_after(r2, schema, tagger(n2)) != rose_after(root, schema, tagof):
-            extra += ' MISMATCH(fill_query_params tree)'
+        with harness_recursion():
+            if not err and rose_after(r2, schema, tagger(n2)) != rose_after(root, schema, tagof):
+                extra += ' MISMATCH(fill_query_params tree)'
     else:
         raise ValueError(mode)
-    return dict(visits=visits, tree=rose_after(root, schema, tagof),
+    with harness_recursion():
+        after = rose_after(root, schema, tagof)
+    return dict(visits=visits, tree=after,
                 r='-' if res is None or isinstance(res, list) else str(tagof(res)), extra=extra)
 
 
@@ -225,9 +309,25 @@ def _has_param(num, k):
     return type(num.nodes[k]).__name__ == 'Parameter' or any(_has_param(num, c) for c in num.kids[k])
 
 
+def lib_call(f):
+    """run a walk of the real code under the interpreter's ordinary recursion limit (the harness itself runs under a raised
+    one).  Only when that limit is hit — the oracle's bookkeeping wrapper costs one more frame per level — the call is
+    repeated with room.  returns (result, retried)"""
+    try:
+        with library_recursion():
+            return f(), False
+    except RecursionError:
+        return f(), True
+
+
 def oracle(schema, root, rng, n_rep=3):
-    """the property's own oracle on the real code, for one parser-produced tree.
+    """the property's own oracle on the real code, for one parser-produced tree (of any nesting depth).
     returns (failures, stats): failures = list of dict(cls, slot, dev, detail)"""
+    with harness_recursion():
+        return _oracle(schema, root, rng, n_rep)
+
+
+def _oracle(schema, root, rng, n_rep):
     fails = []
     r0 = copy.deepcopy(root)
     num = walkspec.Numbering(r0)
@@ -239,11 +339,23 @@ def oracle(schema, root, rng, n_rep=3):
         pos = None
     before = rose_after(r0, schema, tagger(num))
     log = []
+    retried = False
     with Stack() as S:
         def cb(node, **kw):
             par = S.stack[-2] if len(S.stack) >= 2 else None
             log.append((node, bool(kw.get('is_table')), bool(kw.get('is_target')), par))
-        S.qt(r0, cb)
+
+        def look():
+            del log[:]
+            del S.stack[:]
+            return S.qt(r0, cb)
+        try:
+            _, retried = lib_call(look)
+        except Exception as e:
+            # a visitor that only looks never raises: the walker did
+            fails.append(dict(cls=type(root).__name__, slot='*', dev='raised',
+                              detail='the walk of a tree of %d nodes raised %s: %s' % (len(num.nodes), type(e).__name__, str(e)[:200])))
+            return fails, dict(nodes=len(num.nodes), visited=0, required=0)
     if rose_after(r0, schema, tagger(num)) != before:
         fails.append(dict(cls=type(root).__name__, slot='*', dev='mutated', detail='a walk whose visitor returns None changed the tree'))
     first = {}
@@ -290,8 +402,10 @@ def oracle(schema, root, rng, n_rep=3):
         return v
     sf(0)
     unvisited_above = set()
+    depth = {0: 1}
     for k in order[1:]:
         pk, attr, path = num.parent[k]
+        depth[k] = depth[pk] + 1
         pc = type(num.nodes[pk]).__name__
         if pk in unvisited_above:
             unvisited_above.add(k)
@@ -300,7 +414,8 @@ def oracle(schema, root, rng, n_rep=3):
             continue
         if kind[k] in walkspec.REQUIRED:
             if k not in count:
-                fails.append(dict(cls=pc, slot=attr, dev='unvisited', node=k, detail='node %d (%s) is never passed to the visitor' % (k, type(num.nodes[k]).__name__)))
+                fails.append(dict(cls=pc, slot=attr, dev='unvisited', node=k, depth=depth[k],
+                                  detail='node %d (%s, nesting depth %d) is never passed to the visitor' % (k, type(num.nodes[k]).__name__, depth[k])))
                 unvisited_above.add(k)
                 continue
             if count[k] > 1:
@@ -336,7 +451,12 @@ def oracle(schema, root, rng, n_rep=3):
         R = mk()
         R._verif_tag = R_TAG
         tgt = n1.nodes[x]
-        utils.query_traversal(r1, lambda node, **kw: R if node is tgt else None)
+        try:
+            lib_call(lambda: utils.query_traversal(r1, lambda node, **kw: R if node is tgt else None))
+        except Exception as e:
+            fails.append(dict(cls=type(root).__name__, slot='*', dev='raised',
+                              detail='the walk with a visitor answering for node %d raised %s: %s' % (x, type(e).__name__, str(e)[:200])))
+            continue
         got = rose_after(r1, schema, tagger(n1))
         # expected: the same tree with the subtree of x replaced by R
         pk, attr, path = n1.parent[x]
@@ -359,4 +479,5 @@ def oracle(schema, root, rng, n_rep=3):
     for f in fails:
         if 'node' in f and 'has_param' not in f:
             f['has_param'] = _has_param(num, f['node'])
-    return fails, dict(nodes=len(num.nodes), visited=len(first), required=sum(1 for k in reached if kind.get(k) in walkspec.REQUIRED))
+    return fails, dict(nodes=len(num.nodes), visited=len(first), required=sum(1 for k in reached if kind.get(k) in walkspec.REQUIRED),
+                       depth=max(depth.values()), retried=retried)
